@@ -1,13 +1,17 @@
 #!/bin/bash
-# usage: tools/fuzz.sh <C01|C02> <seconds>
-# Coverage-guided supplement of the thorough tier (E6): libFuzzer on the parse / render target with
-# a seed corpus of generated templates and a keyword dictionary.  A crash is turned into a replay
+# usage: tools/fuzz.sh <C01|C02|C03|C04|C05|C06|C08> <seconds>
+# Coverage-guided supplement of the thorough tier.  E6: libFuzzer on the parse / render target with
+# a seed corpus of generated templates and a keyword dictionary (C01, C02).  E6b: libFuzzer on the
+# `diff` target (C03-C06, C08): bytes are decoded into the case type of the property's random
+# sub-check (harness/src/astdec.rs) and judged by that sub-check's own oracle (reference interpreter).  A crash is turned into a replay
 # file and re-judged by the harness's own oracle; only a confirmed one is reported.
 # exit 0 = nothing found, 1 = confirmed violation (VIOLATION line printed by the harness),
 # 2 = inconclusive (tool failure / unconfirmed crash).
 set -u
 ID=$1; SECS=${2:-120}
-case $ID in C01) T=parse;; C02) T=render;; *) echo "no fuzz target for $ID"; exit 0;; esac
+case $ID in C01) T=parse;; C02) T=render;; C03|C04|C05|C06|C08) T=diff; export VERIF_DIFF_ENVELOPE=$ID;; *) echo "no fuzz target for $ID"; exit 0;; esac
+# the diff target allocates heavily (parser construction per case): keep ASan's quarantine small
+[ $T = diff ] && export ASAN_OPTIONS=quarantine_size_mb=1:malloc_context_size=0:detect_leaks=0
 V=/verif/harness/target/verif/verif
 F=/verif/fuzzhost/fuzz
 cd $F || exit 2
@@ -16,16 +20,17 @@ if ! cargo +nightly fuzz build $T >/tmp/fuzz_build.$$.log 2>&1; then echo "INCON
 rm -f /tmp/fuzz_build.$$.log
 C=$F/corpus/$T; A=$F/artifacts/$T
 rm -rf "$C" "$A"; mkdir -p "$C" "$A"
-$V corpus $T "$C" 300 || exit 2
-$V fuzz-dict > $F/dict.txt 2>/dev/null
+if [ $T = diff ]; then $V diff-corpus "$C" 300 || exit 2; : > $F/dict.txt
+else $V corpus $T "$C" 300 || exit 2; $V fuzz-dict > $F/dict.txt 2>/dev/null; fi
 SEED=$(( ${VERIF_SEED:-0} + 1 ))
 BIN=$F/target/x86_64-unknown-linux-gnu/release/$T
 LOG=$F/fuzz_$T.log
 # 8 independent libFuzzer processes (different seeds) sharing the corpus directory; each one
 # stops at its first crash, whose input lands in the artifact directory
 pids=""
+TMO=20; [ $T = diff ] && TMO=120
 for w in 1 2 3 4 5 6 7 8; do
-  "$BIN" "$C" -dict=$F/dict.txt -max_total_time=$SECS -seed=$(( SEED * 100 + w )) -len_control=0 -max_len=2048 -timeout=20 -rss_limit_mb=4096 -reload=1 -print_final_stats=1 -artifact_prefix="$A/" > "$LOG.$w" 2>&1 &
+  "$BIN" "$C" $( [ -s $F/dict.txt ] && echo -dict=$F/dict.txt ) -max_total_time=$SECS -seed=$(( SEED * 100 + w )) -len_control=0 -max_len=2048 -timeout=$TMO -rss_limit_mb=4096 -reload=1 -print_final_stats=1 -artifact_prefix="$A/" > "$LOG.$w" 2>&1 &
   pids="$pids $!"
 done
 wait $pids
@@ -48,6 +53,21 @@ try:
 except Exception as ex:
     print("could not update evidence:",ex)
 PY
+if [ $T = diff ]; then
+  # what the byte decoder made of the final corpus (generator distribution under coverage feedback)
+  $V diff-stats "$C" $ID > $F/diff_stats.json 2>/dev/null
+  python3 - "$ID" $F/diff_stats.json <<'PY'
+import json,sys,os
+ID,st=sys.argv[1:]
+p=f"/verif/evidence{'.scratch' if os.environ.get('VERIF_SCRATCH') else ''}/{ID}.json"
+try:
+    e=json.load(open(p)); d=json.load(open(st))
+    e["coverage"]["fuzz_campaign"]["final_corpus"]={"inputs":d["inputs"],"nontrivial_by_the_sub_checks_rule":d["nontrivial"],"oracle_failures":d["oracle_failures"],"classes":d["classes"],"samples":d["samples"][:3]}
+    json.dump(e,open(p,"w"),indent=1)
+except Exception as ex:
+    print("could not add corpus statistics to evidence:",ex)
+PY
+fi
 rc=0
 for a in "$A"/crash-*; do
   [ -f "$a" ] || continue
